@@ -213,7 +213,12 @@ impl WriteSource for pr::ExprKind {
                         r += opt.consume(&ty)?;
                     }
                     r += opt.consume(":")?;
-                    r += opt.consume(&param.default_value.as_ref().unwrap().write(opt.clone())?)?;
+                    // a default is a single operand: a function call or a function
+                    // given as the default needs its parentheses
+                    let mut opt_default = opt.clone();
+                    opt_default.context_strength = STRENGTH_OPERAND;
+                    let default = param.default_value.as_ref().unwrap();
+                    r += opt.consume(&default.write(opt_default)?)?;
                     r += opt.consume(" ")?;
                 }
                 r += opt.consume("-> ")?;
@@ -265,6 +270,10 @@ fn break_line_within_parenthesis<T: WriteSource>(expr: &T, mut opt: WriteOpt) ->
     r += ")";
     Some(r)
 }
+
+/// Context strength of a place that takes an operand but not a bare function call
+/// (stronger than [pr::ExprKind::FuncCall], weaker than any operator).
+const STRENGTH_OPERAND: u8 = 11;
 
 fn binding_strength(expr: &pr::ExprKind) -> u8 {
     match expr {
